@@ -94,6 +94,7 @@ def gen_formula(rng, depth=3):
 # order / equality between two Int variables or a variable and a constant in [-1, 1], equality between U symbols -- are
 # such that satisfiability over these domains coincides with satisfiability over Z / any domain.
 INT_VARS, U_VARS = (10, 11), (20, 21, 22)
+WEIRD_NAMES = {0: 'p (q" r', 1: 'say "hi (twice', 10: 'the "big (M" bound', 11: 'a"b)c (d', 20: 'u ("0'}
 
 
 def var_name(i):
@@ -424,8 +425,12 @@ def _worker(cfg, wfd):
             from pysmt.typing import INT
             logic = QF_UFLIA
             usort = env.type_manager.Type("U", 0)
-            syms.update({i: mgr.Symbol(var_name(i), INT) for i in INT_VARS})
-            syms.update({i: mgr.Symbol(var_name(i), usort) for i in U_VARS})
+            # extreme but legal symbol names (SMT-LIB quoted symbols may contain anything but `|` and `\`): the
+            # records keep the canonical names x0.. / y0.. / u0..
+            names = WEIRD_NAMES if cfg.get("weird_names") else {}
+            syms.update({i: mgr.Symbol(names[i]) for i in range(NVARS) if i in names})
+            syms.update({i: mgr.Symbol(names.get(i, var_name(i)), INT) for i in INT_VARS})
+            syms.update({i: mgr.Symbol(names.get(i, var_name(i)), usort) for i in U_VARS})
             members = []
             for k, m in enumerate(cfg["members"]):
                 name = "c19ext%d" % k
@@ -722,6 +727,13 @@ def gen_script(rng, ncycles):
                 order = list(range(NVARS))
                 rng.shuffle(order)
                 script.append(["get_values", order])
+            if kind >= 0.2 and rng.random() < 0.6:
+                # ... immediately followed by a solve(): when every member fails, this is a command that RAISES while
+                # the temporary level is pending -- the level must be gone afterwards, and only that level
+                script.append(["solve"])
+                if rng.random() < 0.5:
+                    script.append(["assert", gen_formula(rng, 2)])
+                    script.append(["solve"])
             if kind < 0.2:
                 # ... immediately followed by an assertion that must land on the live stack, not on the temporary
                 # level, and that constrains the next answer
@@ -807,7 +819,7 @@ def gen_ext_configs(rng, count):
         else:
             eoe = rng.random() < 0.3
             modes = [rng.choice(["answer", "answer", "unknown", "crash", "crash_after"]) for _ in range(rng.choice([2, 3]))]
-        cfgs.append({"kind": "ext", "eoe": eoe, "shape": "smtlib-wrapper-members",
+        cfgs.append({"kind": "ext", "eoe": eoe, "shape": "smtlib-wrapper-members", "weird_names": k % 2 == 0,
                      "members": [{"mode": m, "pick": i, "delay_ms": rng.choice([0, 0, 5, 20, 60])} for i, m in enumerate(modes)],
                      "script": gen_ext_script(rng, rng.choice([1, 2, 2, 3]))})
     return cfgs
@@ -990,8 +1002,8 @@ def solve_stack(step, stack):
 
 
 def describe(cfg):
-    return "eoe=%s%s members=[%s] script=[%s]" % (
-        cfg["eoe"], (" perturb=%s" % json.dumps(cfg["perturb"], sort_keys=True)) if cfg.get("perturb") else "",
+    return "eoe=%s%s%s members=[%s] script=[%s]" % (
+        cfg["eoe"], " kind=ext" + (" weird-names" if cfg.get("weird_names") else "") if cfg.get("kind") == "ext" else "", (" perturb=%s" % json.dumps(cfg["perturb"], sort_keys=True)) if cfg.get("perturb") else "",
         ", ".join("%s@%dms/pick%d" % (m["mode"], m["delay_ms"], m["pick"]) for m in cfg["members"]),
         "; ".join(s[0] + (" " + show(s[1]) if s[0] in ("assert", "is_sat", "is_valid", "is_unsat") else
                          "(%d)" % s[1] if s[0] in ("push", "pop") and len(s) > 1 else
